@@ -426,7 +426,8 @@ Proof.
   unfold shortif_ok in Hsok. destruct bk as [btag ba bb bsh bfs| | | | | | | |]; try discriminate Hsok.
   destruct bfs as [|[| |bl| | | | | |] [|? ?]]; cbv beta iota in Hsok; try discriminate Hsok; try (destruct bl; discriminate Hsok).
   destruct bl as [|bx br]; [discriminate Hsok|].
-  apply andb_true_iff in Hsok. destruct Hsok as [Hnodo Hrest]. apply negb_true_iff in Hnodo.
+  apply andb_true_iff in Hsok. destruct Hsok as [Hnodo Hrest]. apply andb_true_iff in Hnodo. destruct Hnodo as [Hnodo Hpg].
+  apply negb_true_iff in Hnodo.
   (* contexts of the parts *)
   pose proof HC as HC'. apply CTX_node in HC'. ctx_split HC'. open_lst. open_lst.
   match goal with HCp : ParserComplete2.CTX ts (Paren o c ex) mx |- _ => rename HCp into HCP end.
@@ -437,10 +438,6 @@ Proof.
   assert (Hbt : btag = tChunk).
   { destruct n; [discriminate E2|]. cbn [g_chunk] in E2. destruct (btag =? tChunk) eqn:E; [apply Z.eqb_eq in E; exact E | discriminate]. }
   subst btag.
-  assert (Hpg : pguard false (bx :: br) = true).
-  { destruct HCB as (Hfb & _). cbn [in_frag] in Hfb. change (tChunk =? tChunk) with true in Hfb. cbv iota in Hfb.
-    apply andb_true_iff in Hfb. destruct Hfb as [Hfb _]. apply andb_true_iff in Hfb. destruct Hfb as [Hfb _].
-    apply andb_true_iff in Hfb. apply Hfb. }
   pose proof (shortif_body_head _ _ _ _ _ _ _ _ E2 Hpg Hnodo) as Hbh.
   (* the closing parenthesis *)
   pose proof E1 as E1'. destruct n; [discriminate E1'|]. cbn [g_prefix] in E1'.
